@@ -1202,6 +1202,42 @@ Definition compact_markers_ok (r : registry) (codec : bool) (t : ty) (fs : list 
                else Bool.eqb marked (is_compact_entry r (f_ty (fst fp)))
              else negb marked) (combine fs pfs).
 
+(** C18 against the REGISTRY (not only against the enum's own variant, which goes through the same
+    code): the standalone struct built from the field list of a struct / variant of a parameter-free
+    type has the registry's field names in order, a compact marker exactly on the fields whose
+    registry type is a Compact entry (codec on; none with codec off), and a Box exactly on the fields
+    the generator boxes (recorded type name) *)
+Definition is_box_pty (t : pty) : bool :=
+  match t with
+  | PPath true segs => String.eqb (last (map fst segs) "") "Box" &&
+                       match removelast (map fst segs) with _ :: _ => String.eqb (last (removelast (map fst segs)) "") "boxed" | [] => false end
+  | _ => false
+  end.
+Definition prop_standalone_registry (c : tg_case) : bool :=
+  let r := tg_reg c in
+  let s := settings_of (tg_spec c) in
+  forallb (fun '(id, vi, o) =>
+             match o, resolve r id, upcast_fields r id vi with
+             | OOk st, Some t, Some (name, fs, _) =>
+                 match param_ids t with
+                 | _ :: _ => true
+                 | [] =>
+                     match parse_one_item st with
+                     | None => false
+                     | Some sit =>
+                         let pfs := body_fields (pi_body sit) in
+                         String.eqb (pi_name sit) name &&
+                         compact_markers_ok r (s_codec s) t fs pfs &&
+                         Nat.eqb (List.length fs) (List.length pfs) &&
+                         forallb (fun fp : field * pfield =>
+                                    option_eqb String.eqb (f_name (fst fp)) (pf_name (snd fp)) &&
+                                    Bool.eqb (is_boxed_gen (fst fp)) (is_box_pty (pf_ty (snd fp))))
+                                 (combine fs pfs)
+                     end
+                 end
+             | _, _, _ => true
+             end) (tg_upcasts c).
+
 Definition hyp_compact_fields (c : tg_case) : bool :=
   let r := tg_reg c in
   s_codec (settings_of (tg_spec c)) && hyp_gen_ok c &&
